@@ -119,7 +119,19 @@ def run_all(repo):
                     if r.k == 'scalar' and kind == 'per':
                         got = None
                 from .axis import Sink
-                if got is None:
+                wrong = [x for x in ai.returns
+                         if rel_ != 'major' and x.k in (
+                             'per', 'list', 'ids', 'md', 'index', 'pos')
+                         and x.ax in AXNAME.values() and x.ax != want and
+                         x.k != 'scalar']
+                if wrong and rel_ != 'inverse':
+                    sinks.append(Sink(
+                        'RET', f, 'return', 'bad',
+                        'for axis=%s one of the return statements yields a '
+                        'value of the %s axis (expected %s)'
+                        % (fixed['axis'], NAMEAX[wrong[0].ax],
+                           NAMEAX[want]), ai.spec))
+                elif got is None:
                     sinks.append(Sink('RET', f, 'return', 'unknown',
                                       'returned axis unresolved', ai.spec))
                 else:
